@@ -23,6 +23,10 @@ func init() {
 		{Name: "undefined-writes-first", Rule: "R10.5", Where: "(*Undefined).WriteTo", Edits: []Edit{{"undefined.go", "\treturn 0, fmt.Errorf(\"cannot write %T\", p)", "\tw.Write(p.data)\n\treturn 0, fmt.Errorf(\"cannot write %T\", p)"}}},
 		{Name: "undefined-returns-nil", Rule: "R10.5", Where: "(*Undefined).WriteTo", Edits: []Edit{{"undefined.go", "\treturn 0, fmt.Errorf(\"cannot write %T\", p)", "\treturn 0, nil"}}},
 		{Name: "primitive-width-differs-on-short-buffer", Rule: "R10.3", Where: "(wuint16).fill", Edits: []Edit{{"wiretypes.go", "\tif len(data) >= i+2 {\n\t\tbinary.BigEndian.PutUint16(data[i:], uint16(v))\n\t}\n\treturn 2", "\tif len(data) >= i+2 {\n\t\tbinary.BigEndian.PutUint16(data[i:], uint16(v))\n\t\treturn 2\n\t}\n\treturn 0"}}},
+		{Name: "u32-guard-one-too-strong", Rule: "R10.6", Where: "(wuint32).fill", Edits: []Edit{{"wiretypes.go", "\tif len(data) >= i+v.width() {\n\t\tbinary.BigEndian.PutUint32", "\tif len(data) > i+v.width() {\n\t\tbinary.BigEndian.PutUint32"}}},
+		{Name: "vbi-byte-guard-off-by-one", Rule: "R10.6", Where: "(vbint).fill", Edits: []Edit{{"wiretypes.go", "\t\tif i < len(data) {\n\t\t\tdata[i] = encodedByte", "\t\tif i+1 < len(data) {\n\t\t\tdata[i] = encodedByte"}}},
+		{Name: "guard-written-the-other-way-round", Silent: true, Edits: []Edit{{"wiretypes.go", "\tif len(data) >= i+2 {\n\t\tbinary.BigEndian.PutUint16(data[i:], uint16(v))\n\t}\n\treturn 2", "\tif i+2 > len(data) {\n\t\treturn 2\n\t}\n\tbinary.BigEndian.PutUint16(data[i:], uint16(v))\n\treturn 2"}}},
+		{Name: "one-byte-payload-not-counted", Rule: "R10.7", Where: "Publish", Edits: []Edit{{"publish.go", "\tif len(p.payload) > 0 {\n\t\tremainingLen += vbint(p.payload.fill(_LEN, 0))", "\tif len(p.payload) > 1 {\n\t\tremainingLen += vbint(p.payload.fill(_LEN, 0))"}}},
 		{Name: "explicit-error-branch", Silent: true, Edits: []Edit{{"pingreq.go", "\tn, err := w.Write(b)\n\treturn int64(n), err", "\tn, err := w.Write(b)\n\tif err != nil {\n\t\treturn int64(n), err\n\t}\n\treturn int64(n), nil"}}},
 		{Name: "dry-run-hoisted-into-local", Silent: true, Edits: []Edit{{"connack.go", "\tb := make([]byte, p.fill(_LEN, 0))\n\tp.fill(b, 0)\n\tn, err := w.Write(b)", "\tsize := p.fill(_LEN, 0)\n\tb := make([]byte, size)\n\tp.fill(b, 0)\n\tn, err := w.Write(b)"}}},
 	}})
@@ -75,12 +79,14 @@ func (p *Prog) dryRunCall(v ssa.Value, depth int) (*ssa.Function, ssa.Value, boo
 func checkC10(p *Prog, c *Check) {
 	c.Rule("R10.1", "every WriteTo allocates one buffer whose size is the dry run fill(nil-slice, 0) of the receiver, fills it with the same function on the same receiver from offset 0, hands exactly that buffer to the writer in exactly one Write on every path, uses the writer for nothing else and returns int64(n), err of that very call")
 	c.Rule("R10.2", "in every fill-family function each emission is made at the offset i_entry + (sum of the results of all emissions before it) and the function returns that sum (or i_entry + sum): frames are contiguous and sizes add up")
+	c.Rule("R10.6", "a size guard in an encoder primitive skips its writes only if the buffer is too short for them (len(buf) < offset + extent): every byte counted by the dry run is written by the real run")
 	c.Rule("R10.3", "the dry run equals the real run: no fill-family function branches on the buffer except a primitive's own `len(buf) >= i + width` guard, and a primitive returns the same width on both sides of that guard")
+	c.Rule("R10.7", "for every abstract packet state (well formed or not) the encoder writes the first byte, then a remaining-length field whose value is exactly the number of bytes written after it: the buffer handed to the writer is 1 + size of the remaining-length field + remaining length bytes")
 	c.Rule("R10.4", "the size printed by every String() is the dry-run size of the same receiver")
 	c.Rule("R10.5", "the packet type that cannot be serialised returns a non-nil error on every path and never touches the writer")
 	c.Explanation = "WriteTo's shape and result flow are read off the SSA form (value identity of the buffer and of the Write call's results). Offset threading is checked with a ghost counter over the emissions of each fill-family function, branch by branch. Together with C02's length-prefix rule this gives: returned count = bytes handed to the writer = 1 + size of the remaining-length field + remaining length = the size String prints."
 	c.Trusted = []string{"go/types + go/ssa (x/tools v0.29.0) faithful IR", "io.Writer contract: Write returns the number of bytes accepted and a non-nil error if that is less than offered"}
-	c.NotDecided = []string{"behaviour of caller-supplied writers beyond the io.Writer contract", "that the remaining-length value equals the bytes that follow (C02 R2.4)"}
+	c.NotDecided = []string{"behaviour of caller-supplied writers beyond the io.Writer contract", "the remaining-length equation for packet states outside the abstract state generator (R10.7 evaluates the encoder on representative states; R10.2 covers the offset arithmetic for all states)"}
 	roots := p.Roots()
 	enc := append([]*ssa.Function(nil), roots.Encode...)
 	sort.Slice(enc, func(i, j int) bool { return qname(enc[i]) < qname(enc[j]) })
@@ -110,6 +116,9 @@ func checkC10(p *Prog, c *Check) {
 	}
 	c.Measured["fill_family_functions"] = nff
 	c.Floor("fill-family functions", nff, 15+6, "one per packet type plus the wire-type primitives")
+
+	// R10.7: the frame's own arithmetic on abstract packet states
+	checkFrameArithmetic(p, c)
 
 	// R10.4
 	ns := 0
@@ -650,6 +659,16 @@ func checkDryEqualsReal(p *Prog, c *Check, fn *ssa.Function, buf, off *ssa.Param
 			c.Bad("R10.3", cons, posOf(p, iff), "the width returned depends on whether the buffer is large enough: the dry run (nil buffer) and the real run disagree")
 		}
 	}
+	// R10.6: a size guard skips its writes only when the buffer really is too short for them
+	for _, f := range writeGuardFindings(p, pr, fn, buf, ems) {
+		if f.ok {
+			c.OK("R10.6", f.cons, f.pos, f.how)
+		} else if f.unk {
+			c.Unk("R10.6", f.cons, f.pos, f.how)
+		} else {
+			c.Bad("R10.6", f.cons, f.pos, f.how)
+		}
+	}
 	// stores/copies into the buffer must be behind a guard; nothing else may read the buffer
 	for _, b := range fn.Blocks {
 		for _, ins := range b.Instrs {
@@ -902,4 +921,175 @@ func bytePerIteration(p *Prog, pr *Prover, fn *ssa.Function, buf, off *ssa.Param
 		return false, "the primitive does not return (running offset after the last byte) - (entry offset): " + describeVal(ret.Results[0])
 	}
 	return true, "one byte is stored at the running offset on every cycle, the offset advances by one, and the number of cycles is returned"
+}
+
+type guardFinding struct {
+	cons, pos, how string
+	ok, unk        bool
+}
+
+// writeGuardFindings: for every branch of an encoder primitive that depends on the buffer, the side
+// that skips the writes must entail that the buffer is too short for (one of) them:
+// len(buf) < offset + extent.  A guard that is stronger than that leaves bytes of a large-enough
+// buffer unwritten (they stay zero), although the width is still counted.
+func writeGuardFindings(p *Prog, pr *Prover, fn *ssa.Function, buf *ssa.Parameter, ems []emission) []guardFinding {
+	type piece struct {
+		at, n Lin
+		b     *ssa.BasicBlock
+	}
+	var pieces []piece
+	for _, b := range fn.Blocks {
+		for _, ins := range b.Instrs {
+			switch x := ins.(type) {
+			case *ssa.Store:
+				if ia, ok := x.Addr.(*ssa.IndexAddr); ok && ia.X == ssa.Value(buf) {
+					pieces = append(pieces, piece{pr.lin(ia.Index), linConst(1), b})
+				}
+			case *ssa.Call:
+				if bi, ok := x.Call.Value.(*ssa.Builtin); ok && bi.Name() == "copy" {
+					if sl, ok := x.Call.Args[0].(*ssa.Slice); ok && sl.X == ssa.Value(buf) && sl.Low != nil && sl.High == nil {
+						pieces = append(pieces, piece{pr.lin(sl.Low), pr.lenOf(x.Call.Args[1]), b})
+					}
+				}
+				if sc := x.Call.StaticCallee(); sc != nil && strings.Contains(fullName(sc), "bigEndian).PutUint") {
+					if sl, ok := x.Call.Args[1].(*ssa.Slice); ok && sl.X == ssa.Value(buf) && sl.Low != nil {
+						n := int64(2)
+						if strings.HasSuffix(fullName(sc), "32") {
+							n = 4
+						} else if strings.HasSuffix(fullName(sc), "64") {
+							n = 8
+						}
+						pieces = append(pieces, piece{pr.lin(sl.Low), linConst(n), b})
+					}
+				}
+			}
+		}
+	}
+	for _, e := range ems {
+		pieces = append(pieces, piece{pr.lin(e.offset), pr.lin(e.call), e.call.Block()})
+	}
+	dependsOnBuf := func(v ssa.Value) bool {
+		return dependsOn(v, func(x ssa.Value) bool { return x == ssa.Value(buf) }, map[ssa.Value]bool{})
+	}
+	var out []guardFinding
+	ng := 0
+	for _, b := range fn.Blocks {
+		iff, ok := terminator(b).(*ssa.If)
+		if !ok || !dependsOnBuf(iff.Cond) {
+			continue
+		}
+		ng++
+		cons := fmt.Sprintf("%s#bufguard%d", qname(fn), ng)
+		pos := posOf(p, iff)
+		var under [2][]piece
+		for side := 0; side < 2; side++ {
+			for _, pc := range pieces {
+				if edgeDominates(b, b.Succs[side], pc.b) {
+					under[side] = append(under[side], pc)
+				}
+			}
+		}
+		room := -1
+		switch {
+		case len(under[0]) > 0 && len(under[1]) == 0:
+			room = 0
+		case len(under[1]) > 0 && len(under[0]) == 0:
+			room = 1
+		}
+		if room < 0 {
+			out = append(out, guardFinding{cons: cons, pos: pos, unk: true, how: "a branch on the buffer that does not simply guard writes into it"})
+			continue
+		}
+		skipFacts := pr.condFacts(iff.Cond, room == 1) // truth value of the condition on the skipping side
+		proved := false
+		lb := pr.lenOf(buf)
+		for _, pc := range under[room] {
+			// goal: at + n - len(buf) - 1 >= 0
+			goal := pc.at.add(pc.n).sub(lb).add(linConst(-1))
+			if pr.Prove(b, goal, skipFacts...) {
+				proved = true
+				break
+			}
+		}
+		if proved {
+			out = append(out, guardFinding{cons: cons, pos: pos, ok: true, how: "the writes are skipped only when the buffer ends before them"})
+		} else {
+			out = append(out, guardFinding{cons: cons, pos: pos, how: "the guard skips the write(s) although the buffer may be large enough for them: those bytes of the frame stay zero while the width is still counted"})
+		}
+	}
+	return out
+}
+
+// checkFrameArithmetic (R10.7): evaluate each packet encoder on the abstract packet states of the
+// C01 generator (without the well-formedness filter: C10 also covers malformed-but-constructible packets)
+// and compare the remaining-length value with the widths of everything emitted after it.
+func checkFrameArithmetic(p *Prog, c *Check) {
+	nstates := 0
+	for _, tn := range packetTypeNames() {
+		fill := p.Method(tn, "fill")
+		if fill == nil {
+			c.Bad("anchor", tn, "-", "fill not found")
+			continue
+		}
+		var will *packetState
+		bad := ""
+		n := 0
+		for _, spec := range p.stateSpecs(tn) {
+			if spec.will == 1 && will == nil {
+				will, _ = p.willState()
+			}
+			var wp *packetState
+			if spec.will == 1 {
+				wp = will
+			}
+			st, why := p.buildState(tn, spec.choose, wp)
+			if st == nil {
+				if bad == "" {
+					bad = "state " + spec.name + ": " + why
+				}
+				continue
+			}
+			evs, _, why := p.encoderTrace(st, fill)
+			if why != "" {
+				if bad == "" {
+					bad = "state " + spec.name + ": " + why
+				}
+				continue
+			}
+			n++
+			var em []layoutEvent
+			for _, e := range evs {
+				if e.Width != 0 {
+					em = append(em, e)
+				}
+			}
+			problem := ""
+			switch {
+			case len(em) < 2 || em[0].Kind != "byte" || em[0].Width != 1:
+				problem = "the frame does not start with the one-byte header"
+			case em[1].Kind != "vbi" || em[1].Val.k != 'i':
+				problem = "the second item is not a determined remaining-length field"
+			default:
+				var rest int64
+				for _, e := range em[2:] {
+					rest += e.Width
+				}
+				if em[1].Val.i != rest {
+					problem = fmt.Sprintf("remaining length says %d but %d bytes follow it (frame of %d bytes)", em[1].Val.i, rest, 1+em[1].Width+rest)
+				} else if em[1].Width != vbiWidth(rest) {
+					problem = fmt.Sprintf("the remaining-length field for %d occupies %d bytes", rest, em[1].Width)
+				}
+			}
+			if problem != "" && bad == "" {
+				bad = fmt.Sprintf("state %s (setters %v): %s; emitted: %s", spec.name, st.Calls, problem, traceString(evs))
+			}
+		}
+		nstates += n
+		if bad != "" {
+			c.Bad("R10.7", tn, p.Pos(fill.Pos()), bad)
+		} else {
+			c.OK("R10.7", tn, p.Pos(fill.Pos()), fmt.Sprintf("remaining length = bytes that follow on all %d abstract states", n))
+		}
+	}
+	c.Measured["abstract_states"] = nstates
 }
